@@ -433,6 +433,9 @@ def run(prog, rep, tier):
     rep.rule('VALUE-dead', 'no result of a call is bound to a local that is never read (reaching '
              'definitions)')
     check_dead_computations(prog, rep, ['tenpy/networks/mps.py'])
+    from ..flow import check_undefined_attrs
+    rep.rule('ATTR-defined', 'every self.X read names an attribute bound somewhere in the class family')
+    check_undefined_attrs(prog, rep, ['tenpy/networks/mps.py'])
     return rep.finish(
         level='other',
         explanation='Canonical-form bookkeeping decided on direct flows: %d set_B sites whose '
